@@ -452,6 +452,33 @@ func checkDescriptorPairing(c *Check) {
 				return false
 			}
 			c.pairedRelease(relSpec{rule: rule, key: fmt.Sprintf("pkg/forkexec.%s:socketpair[%d]", fn.Name(), idx), fn: fn, isRelease: isRel, what: fmt.Sprintf("end %d of the sync socket pair", idx)})
+			// ... and at most once: a second close (explicit, deferred, or by the goroutine the descriptor was handed
+			// to) hits whatever descriptor got the recycled number in the meantime — another run's socket or pipe
+			maxRel, where := 0, ""
+			w := &walker{fn: fn, Inline: -1}
+			cnt := map[*wstate]int{}
+			w.OnInstr = func(w *walker, st *wstate, in ssa.Instruction) {
+				if _, isDefer := in.(*ssa.Defer); isDefer {
+					return // counted at the return
+				}
+				if isRel(in) {
+					cnt[st]++
+				}
+			}
+			w.OnReturn = func(w *walker, st *wstate, ret *ssa.Return, rs []*absVal) {
+				n := cnt[st]
+				for _, d := range st.defers {
+					if rel(d) {
+						n++
+					}
+				}
+				if n > maxRel {
+					maxRel, where = n, p.Pos(ret.Pos())
+				}
+			}
+			w.Run()
+			c.Cond(maxRel <= 1 && !w.Truncated, rule, fmt.Sprintf("pkg/forkexec.%s:socketpair[%d]:once", fn.Name(), idx), p.Pos(fn.Pos()), "released at most once on every path",
+				fmt.Sprintf("end %d of the sync socket pair is released %d times on a path (return at %s): the later close lands on a descriptor number that may already belong to a concurrent run", idx, maxRel, where))
 		}
 		// Start: the pair is created last, right before the fork (no return between creation and the hand-over)
 		var sp, child ssa.CallInstruction
@@ -529,7 +556,7 @@ func checkDescriptorPairing(c *Check) {
 			}
 			if ins != nil && outs != nil {
 				c.pairedRelease(relSpec{rule: rule, key: "container.startContainer:host-socket", fn: sc, from: pair, edgeOK: errEdgeFilter(pair), isRelease: closesDesc(describe(ins)), what: "the host end of the control socket",
-					escapes: func(ret *ssa.Return) bool { return !isNilConst(ret.Results[0]) }})
+					escapes: func(ret *ssa.Return) bool { return !isNilConst(retVal(ret, 0)) }})
 				c.pairedRelease(relSpec{rule: rule, key: "container.startContainer:container-socket", fn: sc, from: pair, edgeOK: errEdgeFilter(pair), isRelease: closesDesc(describe(outs)), what: "the container end of the control socket"})
 			}
 		}
@@ -550,7 +577,7 @@ func checkDescriptorPairing(c *Check) {
 				for _, r := range *v.Referrers() {
 					if ex, ok := r.(*ssa.Extract); ok && ex.Index == 0 {
 						c.pairedRelease(relSpec{rule: rule, key: "container.Build:started-container", fn: bd, from: ci, edgeOK: errEdgeFilter(ci), isRelease: closesDesc(describe(ex)), what: "the started container (process, socket, goroutines)",
-							escapes: func(ret *ssa.Return) bool { return !isNilConst(ret.Results[0]) }})
+							escapes: func(ret *ssa.Return) bool { return !isNilConst(retVal(ret, 0)) }})
 					}
 				}
 			}
@@ -577,7 +604,7 @@ func checkDescriptorPairing(c *Check) {
 		n := 0
 		for _, b := range sp.Blocks {
 			ret, ok := b.Instrs[len(b.Instrs)-1].(*ssa.Return)
-			if !ok || !isNilConst(ret.Results[0]) {
+			if !ok || !isNilConst(retVal(ret, 0)) {
 				continue
 			}
 			closes := 0
